@@ -334,6 +334,8 @@ def compare(before, after, res, umask, srcroot):
             if e["type"] != "file":
                 problems.append(("wrong-type", rel, f"{e['type']} instead of file"))
                 continue
+            if spec.get("ambiguous"):
+                continue  # several sources for this destination in one call: which one wins is unspecified
             s = fsx.entry(spec["src"])
             if e["sha"] != s["sha"]:
                 problems.append(("wrong-content", rel, ""))
@@ -489,7 +491,7 @@ def culprit_features(case, req, W, before, after):
             want = {"file": "file", "dir": "dir", "sym": "sym"}.get(spec["type"])
             if want and (e is None or e["type"] != want):
                 return feats
-            if want == "file" and e.get("sha") != fsx.entry(spec["src"])["sha"]:
+            if want == "file" and not spec.get("ambiguous") and e.get("sha") != fsx.entry(spec["src"])["sha"]:
                 return feats
     return first_special if after is None else None
 
@@ -692,7 +694,7 @@ def src_tree(draw, names=FILE_NAMES, symlinks=False, depth_dirs=True):
     dirs = []
     dangling = False
     if depth_dirs:
-        dirs = draw(st.lists(st.sampled_from(DIR_NAMES), min_size=0, max_size=2, unique=True))
+        dirs = draw(st.lists(st.sampled_from(DIR_NAMES), min_size=1, max_size=2, unique=True))
         for j, d in enumerate(dirs):
             spec.append({"path": d, "type": "dir", "mode": draw(st.sampled_from([0o755, 0o700]))})
             inner = draw(st.lists(st.sampled_from(names), min_size=0, max_size=3, unique=True))
@@ -725,19 +727,23 @@ def src_tree(draw, names=FILE_NAMES, symlinks=False, depth_dirs=True):
 
 
 def _spell(draw, name, is_dir=False):
+    """argument spellings; directories also as `dir/`, `dir/.` (the "contents of" idiom), `./dir/`"""
+    if is_dir:
+        # (hypothesis favours early elements: the less common spellings come first)
+        return draw(st.sampled_from([name + "/.", name, name + "/", "./" + name, "@W@/" + name + "/.", name,
+                                     "./" + name + "/", "@W@/" + name]))
     k = draw(st.integers(0, 9))
     if k == 0:
         return "./" + name
     if k == 1:
         return "@W@/" + name
-    if k == 2 and is_dir:
-        return name + "/"
     return name
 
 
 @st.composite
 def file_case(draw, helper=None):
-    h = helper or draw(st.sampled_from(["doins", "doins", "dodoc", "doexe", "dobin", "dosbin", "dolib", "dolib.so", "dolib.a"]))
+    h = helper or draw(st.sampled_from(["doins", "doins", "doins", "dodoc", "dodoc", "doexe", "dobin", "dosbin", "dolib",
+                                        "dolib.so", "dolib.a"]))
     if h == "dolib":
         eapi = draw(st.integers(0, 6))
     else:
@@ -776,6 +782,9 @@ def file_case(draw, helper=None):
     if dirs and (recursive or draw(st.integers(0, 9)) < 2):
         pool += [(d, True) for d in dirs]
     chosen = draw(st.lists(st.sampled_from(pool), min_size=1, max_size=n, unique=True))
+    if recursive and dirs and not any(is_dir for _, is_dir in chosen):
+        # a recursive call without any directory argument exercises nothing recursive
+        chosen = [(draw(st.sampled_from(dirs)), True)] + chosen[:n - 1]
     for name, is_dir in chosen:
         args.append(_spell(draw, name, is_dir))
     if draw(st.integers(0, 19)) == 0:
